@@ -51,6 +51,34 @@ CHECKS = {
              "tokens x contexts); exhaustive over option sets.",
         technique="TLA+ declarative token classifier model-checked with TLC for non-interference over 1536 option sets; expected outcomes replayed into the parser; results validated by TLC",
     ),
+    "C13": dict(
+        category="model_checking",
+        text="TLC checks on the reference reader/printer that every accepted text - every word up to a bounded length over an "
+             "alphabet of byte strings chosen for reader-lenient/printer-verbatim mismatches, and a corpus of single-datum texts - "
+             "printed with the printer options corresponding to the parser options reads back as the documented folding and is a "
+             "fixed point; it emits the alphabet, the option sets and PrinterFor. The harness runs the same words through the "
+             "implementation (parse, print, parse, print, parse) and compares with ==/float accuracy; TLC then validates sampled "
+             "(text, v, t1, v2, t2) events with the specification's Fold and reads t1 with the reference reader.",
+        design_ref="DESIGN.md section 6 (C13)",
+        note="Implementation-vs-implementation property: whether the first reading is right is C08's/C01's business. Interpretation: "
+             "t2 = t1 is required when folding leaves the value unchanged and floats were re-read exactly; otherwise the folded "
+             "value must itself be a fixed point. Bounded: words of length <= 4 (quick) / 5 (thorough) over 15 / 27 symbols; 3 / 8 "
+             "option sets.",
+        technique="TLA+ reference reader/printer fixed point model-checked with TLC over all short words; same words replayed through parse-print-parse; events validated by TLC",
+    ),
+    "C19": dict(
+        category="model_checking",
+        text="TLC checks on the reference reader that no proper byte prefix of any text of a corpus covering every token kind in "
+             "both dialects is called malformed (only 'value' or 'incomplete'), and emits the texts. The harness parses every "
+             "proper prefix of every text the implementation accepts (corpus, printed random values in both dialects, token-"
+             "alphabet junk) and requires the EOF category for failures; every error from the three sources is checked for "
+             "location bounds and io::Error kind; a sample of the error events is re-judged by TLC with the line/column "
+             "arithmetic of spec/Text.tla.",
+        design_ref="DESIGN.md section 6 (C19)",
+        note="The premise 'the full text parses as a single datum' is evaluated on the implementation. Trusted: TLC, Text.tla "
+             "NumLines/LineLen, the harness. Bounded by the corpus and the seeded generators.",
+        technique="TLA+ reference reader model-checked with TLC over all prefixes of a token-kind corpus; prefixes replayed into the parser; error events validated by TLC",
+    ),
     "C07": dict(
         category="fault_enumeration",
         text="The sink machine of spec/Sink.tla (write_all discipline against a sink that may accept any prefix, return 0, fail or "
